@@ -284,6 +284,15 @@ def client_setter_work(arg):
             except Exception as e:
                 flag("setter-raises", "%s after connect raises %s" % (name, type(e).__name__), repr(e))
         applied = set(before) | set(after) | set(during)
+        if len(arg) > 5 and arg[5]:
+            # the settings outlive the session: disconnect, connect() again on the same UdpClient, check in session 2
+            wit["second_session"] = True
+            ce.client.disconnect()
+            w.run(12)
+            ce.client.forceDisconnect()
+            w.run(2)
+            w.client_reconnect(0)
+            w.run_until_connected(limit=int(3.0 / frame))
         w.run(int(1.2 / frame))
         t0 = w.tickno - int(0.7 / frame)
         g = gaps(w, t0)["c"]
@@ -465,6 +474,10 @@ def run(tier, seed):
             cs_jobs.append((names_, (), 1.0 / 64, (), vals))
             cs_jobs.append(((), names_, 1.0 / 64, (), vals))
             cs_jobs.append(((), (), 1.0 / 64, names_, vals))
+    for names_ in (CLIENT_SETTERS, tuple(reversed(CLIENT_SETTERS))):
+        cs_jobs.append((names_, (), 1.0 / 64, (), None, True))
+        cs_jobs.append(((), names_, 1.0 / 64, (), None, True))
+        cs_jobs.append(((), (), 1.0 / 64, names_, None, True))
     res = core.pmap("checks.c12", "client_setter_work", cs_jobs)
     for r in res:
         fold(r[1])
@@ -506,7 +519,7 @@ def replay(witness):
     elif part == "connect":
         v = connect_work((witness["timeout"], witness["callback"], witness["frame"], witness.get("set_when", "before")))[1]
     elif part == "client-setters":
-        v = client_setter_work((tuple(witness["before_connect"]), tuple(witness["after_connect"]), 1.0 / 64, tuple(witness.get("during_handshake", ())), tuple((witness.get("values") or {}).items())))[1]
+        v = client_setter_work((tuple(witness["before_connect"]), tuple(witness["after_connect"]), 1.0 / 64, tuple(witness.get("during_handshake", ())), tuple((witness.get("values") or {}).items()), bool(witness.get("second_session"))))[1]
     elif part == "server-setters":
         v = server_setter_work((tuple(witness["order"]), 1.0 / 64, witness.get("values")))[1]
     elif part == "jitter":
